@@ -167,6 +167,8 @@ func CollFamilies() []CollSpec {
 		{Name: "CASEACC", Free: []string{"a", "A", "á", "ä", "ab", "aB", "Ab", "b"}, Probes: []string{"Á", "B", "aa"}},
 		{Name: "WORDS", Free: []string{"abc", "résumé", "resume", "Resume", "z", "å", "ö", ""}, Probes: []string{"résume", "Z", "o", "re\u0301sume\u0301", "RESUME"}}, // incl. the NFD twin of a stored NFC string (equal sort key, different bytes)
 		{Name: "DIGITS", Free: []string{"9", "10", "a9", "a10", "2", "a2", "a b", "a-b"}, Probes: []string{"a", "1", "ab"}},
+		// stored keys that are NOT in NFC form (base letter + combining mark, singleton code points): they must come back as inserted
+		{Name: "NFDKEYS", Free: []string{"cote\u0301", "ro\u0302le", "\u212b", "cote", "role", "A"}, Probes: []string{"cot\u00e9", "r\u00f4le", "\u00c5"}},
 		{Name: "DIGITCASE", Free: []string{"track10", "Track10", "TRACK10", "track9", "Track9", "track010"}, Probes: []string{"track1", "TRACK9"}},
 		// sort keys beyond 4 KiB (the inline size of collate.Buffer)
 		{Name: "VERYLONG", Free: []string{rep('x', 900) + "a", rep('x', 900) + "A", rep('x', 900) + "b", rep('x', 1100) + "c", "short"}, Probes: []string{rep('x', 900)}},
